@@ -255,6 +255,25 @@ Theorem C02_go_shr_is_mathematical :
 Proof. exact go_shr_math. Qed.
 Print Assumptions C02_go_shr_is_mathematical.
 
+(** r = x op y where r is an existing variable of interface type: + - * / & | ^ &^ reach their
+    interface rows; %, <<, >>, unary - and ^ have no closure and stop the function *)
+Theorem C02_iface_assign_partial :
+  forall o k x y, is_int k = true -> arith o = true -> o <> Rem ->
+    run_row (select_bin_ifa o k) k (VInt k x) (VInt k y) = of_g k (go_arith o k x y).
+Proof. exact sel_arith_ifa. Qed.
+Print Assumptions C02_iface_assign_partial.
+
+Theorem C02_iface_assign_refuted :
+  run_row (select_bin_ifa Rem KInt) KInt (VInt KInt 7) (VInt KInt 3) = YStop
+  /\ of_g KInt (go_arith Rem KInt 7 3) = YVal (VInt KInt 1)
+  /\ run_row (select_bin_ifa Shl KInt) KInt (VInt KInt 1) (VInt KUint 3) = YStop
+  /\ of_g KInt (go_shift Shl KInt 1 3) = YVal (VInt KInt 8)
+  /\ run_row (select_un_ifa Neg KInt8) KInt8 (VInt KInt8 5) (VInt KInt8 5) = YStop
+  /\ of_g KInt8 (go_unary Neg KInt8 5) = YVal (VInt KInt8 (-5))
+  /\ run_row (select_bin_ifa Add KInt8) KInt8 (VInt KInt8 100) (VInt KInt8 100) = YVal (VInt KInt8 (-56)).
+Proof. exact iface_assign_refuted. Qed.
+Print Assumptions C02_iface_assign_refuted.
+
 (** passing a float result as an argument of an interpreted function: the copy is skipped for
     values reflect calls zero, negative zero included (the only float defect with a Coq model) *)
 Theorem C02_pass_arg_partial : forall v, v <> FZero true -> y_pass_arg v = g_pass_arg v.
